@@ -306,7 +306,10 @@ class SVGLexicalParser:
             self.pos = match.end()
             if kind == "SKIP":
                 continue
-            return float(match.group())
+            value = float(match.group())
+            if value in (float("inf"), float("-inf")):
+                raise ValueError("Number out of range: %s" % match.group())
+            return value
         return None
 
     def _flag(self):
